@@ -43,13 +43,21 @@ def abs_messages(spec):
     return msgs
 
 
-def to_relative(msgs):
-    """list of absolute Messages (sorted) -> relative message list with explicit waits"""
+def to_relative(msgs, split_waits=None):
+    """list of absolute Messages (sorted) -> relative message list with explicit waits. split_waits: list of ints; the
+    k-th wait longer than 1 tick is written as two consecutive WAIT messages (split_waits[k % len] decides where)"""
     t = 0
     rel = []
+    k = 0
     for m in msgs:
         if m.time > t:
-            rel.append(Message(message_type=MT.WAIT, channel=m.channel, time=m.time - t))
+            w = m.time - t
+            if split_waits and w > 1:
+                first = 1 + split_waits[k % len(split_waits)] % (w - 1)
+                k += 1
+                rel.append(Message(message_type=MT.WAIT, channel=m.channel, time=first))
+                w -= first
+            rel.append(Message(message_type=MT.WAIT, channel=m.channel, time=w))
             t = m.time
         c = clone(m)
         c.time = None
@@ -80,7 +88,7 @@ def sequence(spec):
     msgs = abs_messages(spec)
     route = spec.get("route", "abs_sorted")
     if route == "rel":
-        s = Sequence(relative_sequence=RelativeSequence(to_relative(msgs)))
+        s = Sequence(relative_sequence=RelativeSequence(to_relative(msgs, spec.get("split_waits"))))
     elif route == "abs_obj":
         s = Sequence(absolute_sequence=AbsoluteSequence(msgs))
     else:
